@@ -4,7 +4,7 @@ import os
 import json
 
 VERIF = os.path.dirname(os.path.dirname(os.path.abspath(__file__)))
-EVID_DIR = os.path.join(VERIF, 'evidence')
+EVID_DIR = os.environ.get('MOSMC_EVIDENCE_DIR') or os.path.join(VERIF, 'evidence')
 
 LEVEL_KEYS = {
     'model_checking': ('states', 'transitions', 'traces_validated_against_impl', 'samples'),
